@@ -28,19 +28,19 @@ var extModels = map[string]extModel{
 	"(encoding/binary.bigEndian).PutUint32":    {preLen: 4, preArg: 1},
 	"(encoding/binary.bigEndian).PutUint64":    {preLen: 8, preArg: 1},
 	"(encoding/binary.bigEndian).AppendUint32": {special: "append4"},
-	"bytes.Index":                              {special: "index"},
-	"fmt.Errorf":                               {nonNil: true},
-	"errors.New":                               {nonNil: true},
-	"fmt.Sprintf":                              {},
-	"fmt.Sprint":                               {},
-	"errors.Is":                                {},
-	"strings.Join":                             {},
-	"time.Now":                                 {},
-	"time.Unix":                                {},
-	"(time.Time).UnixNano":                     {},
-	"(time.Duration).Nanoseconds":              {},
-	"(*sync.Mutex).Lock":                       {},
-	"(*sync.Mutex).Unlock":                     {},
+	"bytes.Index":                 {special: "index"},
+	"fmt.Errorf":                  {nonNil: true},
+	"errors.New":                  {nonNil: true},
+	"fmt.Sprintf":                 {},
+	"fmt.Sprint":                  {},
+	"errors.Is":                   {},
+	"strings.Join":                {},
+	"time.Now":                    {},
+	"time.Unix":                   {},
+	"(time.Time).UnixNano":        {},
+	"(time.Duration).Nanoseconds": {},
+	"(*sync.Mutex).Lock":          {},
+	"(*sync.Mutex).Unlock":        {},
 	"github.com/pion/randutil.NewMathRandomGenerator": {},
 }
 
